@@ -34,15 +34,29 @@ def extract_writer(p: Program, rep: Report, rule: str) -> CookieWriter:
     quote = p.find_method(cookie, "_quote")
     if quote is None:
         raise AnalysisError("Cookie._quote vanished")
+    # a _quote that only delegates (`return _cookie_quote(value)`) is its delegate
+    own_cls = cookie
+    for _ in range(3):
+        body_ = [st_ for st_ in quote.node.body if not (isinstance(st_, ast.Expr) and isinstance(st_.value, ast.Constant))]
+        vname_ = quote.params[1] if (quote.cls is not None and "staticmethod" not in quote.decorators and len(quote.params) > 1) else (quote.params[0] if quote.params else None)
+        if len(body_) == 1 and isinstance(body_[0], ast.Return) and isinstance(body_[0].value, ast.Call) and len(body_[0].value.args) == 1 and not body_[0].value.keywords \
+                and isinstance(body_[0].value.args[0], ast.Name) and body_[0].value.args[0].id == vname_:
+            tgt_ = p.resolve_call(quote, body_[0].value, own_cls)
+            if isinstance(tgt_, FuncInfo) and tgt_ is not quote:
+                quote = tgt_
+                own_cls = tgt_.cls
+                continue
+        break
     rep.analysed(quote.fq)
-    paths, col, it = run_paths(p, quote, cookie, inline=lambda fi: False)  # the predicate helpers are what is analysed below
+    vname = quote.params[1] if (quote.cls is not None and "staticmethod" not in quote.decorators and len(quote.params) > 1) else (quote.params[0] if quote.params else "value")
+    VALUE = ("param", vname)
+    paths, col, it = run_paths(p, quote, own_cls, inline=lambda fi: False)  # the predicate helpers are what is analysed below
     rep.cfg_paths += len(paths)
     rets = [pa for pa in paths if pa.exit == "return"]
-    fast = [pa for pa in rets if pa.value == ("param", "value")]
-    slow = [pa for pa in rets if pa.value != ("param", "value")]
+    fast = [pa for pa in rets if pa.value == VALUE]
+    slow = [pa for pa in rets if pa.value != VALUE]
     if not fast or len({pa.value for pa in slow}) != 1:
         raise Undecided(f"{rule}: Cookie._quote no longer has an unquoted return path and exactly one quoted return form")
-    VALUE = ("param", "value")
     # str predicates that hold iff the string is non-empty and every character satisfies them
     CHARWISE = ("isalnum", "isalpha", "isdigit", "isdecimal", "isnumeric")
     pred_loc = where(quote)
@@ -178,7 +192,7 @@ def extract_writer(p: Program, rep: Report, rule: str) -> CookieWriter:
     v = slow[0].value
     vp = strparts(v) or []
     ok = (len(vp) == 3 and vp[0] == ("const", '"') and vp[2] == ("const", '"')
-          and vp[1][0] == "call" and vp[1][1] == ("attr", ("param", "value"), "translate") and len(vp[1][2]) == 1 and vp[1][2][0][0] == "global")
+          and vp[1][0] == "call" and vp[1][1] == ("attr", VALUE, "translate") and len(vp[1][2]) == 1 and vp[1][2][0][0] == "global")
     tr_call = vp[1] if ok else None
     if not ok:
         raise Undecided(f"{rule}: unrecognised quoted path {show(v)}")
